@@ -241,7 +241,9 @@ const PLAIN: &[char] = &[
 ];
 const SPECIALS: &[char] = &['{', '}', '(', ')', '\\'];
 const FILLS: &[char] = &[' ', '*', '0', '9', '}', '{', '(', ')', '\\', '<', '>', ':', '.', '\u{e9}', '\u{4e2d}', '\u{1f600}'];
-const DATE_FMTS: &[&str] = &["%Y-%m-%d", "%H:%M", "%Y", "%%", "", "at %e %b", "%Y-%m-%dT%H:%M:%S%z", "%s", "%A", "wk %U"];
+/// formats that show the zone: emitted side by side under (utc), (local) and without a zone
+const ZONE_FMTS: &[&str] = &["%H%z", "%H:%M %:z", "%Z", "%Y-%m-%dT%H:%M:%S%z", "%s %z", "%H", "%+", "%H:%M:%S%.f %z", "%f%z"];
+const DATE_FMTS: &[&str] = &["%H%z", "%d %H:%M %:z","%Y-%m-%d", "%H:%M", "%Y", "%%", "", "at %e %b", "%Y-%m-%dT%H:%M:%S%z", "%s", "%A", "wk %U"];
 const KEYS: &[&str] = &["k", "user_id", "cl\u{e9}", "nokey", "a b", "9", ":", "a{b", "x)y", "b\\s", "({})", "k{", "k}", "k(", "k)", "k\\"];
 
 fn lit_of(c: char, rng: &mut Rng, in_arg: bool) -> Lit {
@@ -524,6 +526,25 @@ pub fn gen(rng: &mut Rng, n: usize, thorough: bool, emit: &mut dyn FnMut(String)
     }
     emit(case_line(&[Pat::Date(false, None, None)], &base));
     emit(case_line(&[Pat::Date(true, None, spec(None, None, Some("40"), None))], &base));
+    // 4b. the SAME format text under (utc), (local) and without a zone argument in one pattern
+    //     (one encode, one thread, one second): each date formatter renders its own zone
+    for f in ZONE_FMTS {
+        let d = |z: Option<bool>, long: bool| Pat::Date(long, Some((plain_lits(f), z)), None);
+        let sep = || lit('|', Esc::P);
+        emit(case_line(&[d(Some(true), false), sep(), d(Some(false), false)], &base));
+        emit(case_line(&[d(Some(false), true), sep(), d(Some(true), false), sep(), d(None, false)], &base));
+        emit(case_line(&[d(None, false), sep(), d(Some(true), true), sep(), d(Some(true), false), sep(), d(Some(false), false)], &full));
+        emit(case_line(&[Pat::Group('h', false, vec![d(Some(true), false)], None), Pat::Group('a', false, vec![d(Some(false), false)], spec(None, Some(true), Some("30"), None))], &full));
+    }
+    // 4c. fork family: the pid formatter in a process that forked after its first encode
+    for long in [false, true] {
+        let mut main = base.clone();
+        main.thread = Some("main".into());
+        let p = Pat::Leaf(7, long, None); // pid
+        emit(format!("{}\tfork", case_line(&[p.clone()], &main)));
+        emit(format!("{}\tfork", case_line(&[lit('[', Esc::P), p.clone(), lit(']', Esc::P), leaf("m")], &main)));
+        emit(format!("{}\tfork", case_line(&[Pat::Group('h', false, vec![Pat::Leaf(7, long, spec(None, Some(true), Some("9"), None))], None), leaf("l")], &main)));
+    }
     // 5. {thread_id} (F5, repaired): the alias next to text and under a spec
     emit(case_line(&[Pat::Leaf(THREAD_ID, true, None)], &base));
     emit(case_line(&[lit('a', Esc::P), Pat::Leaf(THREAD_ID, true, None), lit('b', Esc::P)], &base));
@@ -560,6 +581,9 @@ pub fn gen(rng: &mut Rng, n: usize, thorough: bool, emit: &mut dyn FnMut(String)
 }
 
 pub fn exec(fields: &[&str]) -> String {
+    if fields.len() == 11 && fields[10] == "fork" {
+        return c11::exec_fork(&fields[1..10]);
+    }
     if fields.len() != 10 {
         return "bad-case".to_owned();
     }
